@@ -58,6 +58,15 @@ package ipfshttp
 //@     invariant pinAddOK == old(pinAddOK) && pinUpdateOK == old(pinUpdateOK) && postN == old(postN) + 1
 //@   modifies pinAddOK, pinUpdateOK, lastLs, postN, postOK, heap(api.Pin)
 
+// "gives up with an error when a pin makes no progress for the configured time": the watchdog goroutine of Pin.
+// The time of last progress moves only when the number of fetched nodes strictly grows, and that number never shrinks.
+//@ closure Connector.Pin#2
+//@   property C16
+//@   loop 1 (for)
+//@     step [clock-restarts-only-on-progress] lastProgressTime != prev(lastProgressTime) ==> lastProgress > prev(lastProgress)
+//@     step [progress-never-shrinks] lastProgress >= prev(lastProgress)
+//@   modifies *
+
 // "treats unpinning a CID that is not pinned as success ... reports daemon and transport failures as errors"
 //@ func (ipfs *Connector) Unpin
 //@   property C16
